@@ -126,6 +126,11 @@ func (v Value) Hash() uintptr {
 	if v.scalar != 0 {
 		return goRuntimeInt64Hash(v.scalar, 0)
 	}
+	if c, ok := v.iface.(*Closure); ok {
+		// Two closures can be equal without being the same object (see
+		// Closure.Equals), so the hash must only depend on what Equals compares.
+		return goRuntimeEfaceHash(c.Code, 0)
+	}
 	return goRuntimeEfaceHash(v.iface, 0)
 }
 
